@@ -88,7 +88,7 @@ func (e *C15) Plan(tier string, seed uint64) int {
 	if tier == "thorough" {
 		return 40000
 	}
-	return 2500
+	return 6000
 }
 func (e *C15) MinNontrivial(tier string) int { return 60 }
 func (e *C15) InitWorker(c *core.Ctx)        { captureDefaults() }
